@@ -322,6 +322,10 @@ Definition is_structural (op : fop) : bool := is_block_style op || match op with
 (* domain: every injection is applicable to its instruction; no special-mode site lies inside a region
    the plan itself removes; the user does not delete structural instructions with plain alternate
    (the result would not be a decodable body); at least one special-mode or function-level injection *)
+(* a block-alternate site that is not strictly inside a region removed by another block-alternate *)
+Definition top_level (c : lcase) (i : nat) : bool :=
+  negb (mem_nat i (removed (filter (fun e => negb (Nat.eqb (fst (fst e)) i)) (c_plan c)) (c_body c))).
+
 Definition domain22 (c : lcase) : bool :=
   let rem := removed (c_plan c) (c_body c) in
   plan_in_range (length (c_body c)) (c_plan c) && well_bracketed (c_body c)
@@ -329,7 +333,7 @@ Definition domain22 (c : lcase) : bool :=
                 let op := nth i (c_body c) FEnd in
                 accepts op m
                 && (match m with MAlternate => negb (is_structural op) | _ => true end)
-                && (plain_mode m || mode_eqb m MBlockAlt || negb (mem_nat i rem))) (c_plan c)
+                && (if plain_mode m then true else if mode_eqb m MBlockAlt then top_level c i else negb (mem_nat i rem))) (c_plan c)
   && (existsb (fun e => special_mode (snd (fst e))) (c_plan c) || negb (is_nil (c_entry c)) || negb (is_nil (c_exit c))).
 
 (* nested block-alternates: an inner one lies inside a removed region and is (rightly) dropped; for a
@@ -339,12 +343,10 @@ Definition holds22 (c : lcase) : bool :=
   | None => false
   | Some (b, _) =>
       let rem := removed (c_plan c) (c_body c) in
-      let top_level i := (* i is not strictly inside another removed region *)
-          negb (mem_nat i (removed (filter (fun e => negb (Nat.eqb (fst (fst e)) i)) (c_plan c)) (c_body c))) in
       N.eqb (c_bugs c) 0
       && forallb (fun e => let '(i, m, code) := e in
                     if mode_eqb m MBlockAlt
-                    then (if top_level i
+                    then (if top_level c i
                           then forallb (fun z => occurs z b)
                                  (markers (match acc_repl (c_plan c) i MBlockAlt None with Some a => a | None => [] end))
                           else true)
